@@ -32,6 +32,12 @@ try:
             sub = 'db'
         elif pkg.startswith('fastnode'):
             sub = 'fastnode'
+        elif pkg in ('cache', 'cache_test'):
+            sub = 'cache'
+        elif pkg in ('encoding', 'encoding_test'):
+            sub = 'internal/encoding'
+        elif pkg in ('keyformat', 'keyformat_test'):
+            sub = 'keyformat'
     # demo on the unchanged tree
     for d in demos:
         shutil.copy(d, os.path.join(wt, sub))
